@@ -94,6 +94,11 @@ pub trait Enc: std::hash::Hasher + Default {
     type Item: std::hash::Hash + Eq + Clone + Send + Sync + std::panic::RefUnwindSafe + std::panic::UnwindSafe + 'static;
     fn enc(e: u32) -> Self::Item;
     fn label() -> &'static str;
+    /// the element a symbol stands for: symbols whose items have the same hash are one element for the sketcher (its
+    /// occurrence counter and the signature only ever see hashes)
+    fn class(e: u32) -> u32 {
+        e
+    }
 }
 impl Enc for FnvHasher {
     type Item = u32;
@@ -137,9 +142,44 @@ impl Enc for NoHash64 {
     }
 }
 
+/// items that are NOT equal but hash alike (legal for Hash/Eq): two tags per class, only the class is hashed
+#[derive(Clone, Debug, PartialEq, Eq)]
+pub struct TaggedKey {
+    class: u32,
+    tag: u32,
+}
+impl std::hash::Hash for TaggedKey {
+    fn hash<S: std::hash::Hasher>(&self, state: &mut S) {
+        state.write_u32(self.class);
+    }
+}
+/// Fnv again (a distinct type so that it can carry the tagged-key encoding)
+#[derive(Default)]
+pub struct FnvTagged(FnvHasher);
+impl std::hash::Hasher for FnvTagged {
+    fn write(&mut self, bytes: &[u8]) {
+        self.0.write(bytes)
+    }
+    fn finish(&self) -> u64 {
+        self.0.finish()
+    }
+}
+impl Enc for FnvTagged {
+    type Item = TaggedKey;
+    fn enc(e: u32) -> TaggedKey {
+        TaggedKey { class: e / 2, tag: e % 2 }
+    }
+    fn label() -> &'static str {
+        "FnvTagged(unequal items with equal hashes)"
+    }
+    fn class(e: u32) -> u32 {
+        e / 2
+    }
+}
+
 pub fn run_fresh_h<H: Enc>(m: usize, l: usize, seq: &[u32]) -> Result<Run, String> {
     let enc: Vec<H::Item> = seq.iter().map(|e| H::enc(*e)).collect();
-    let plain = seq.to_vec();
+    let plain: Vec<u32> = seq.iter().map(|e| H::class(*e)).collect();
     match guarded_mut(move || {
         let mut h = fresh_h::<H>(m, l);
         // run on the encoded items, decode the snapshot with the plain symbols
@@ -220,7 +260,8 @@ struct Finding {
 fn check_config<H: Enc>(alpha: u32, len: usize, m: usize, l: usize, history_pool: &[Vec<u32>], st: &mut Stats) -> Vec<Finding> {
     let mut findings: Vec<Finding> = Vec::new();
     let seqs = all_sequences(alpha, len);
-    let elements: Vec<u32> = (0..alpha).collect();
+    // one symbol per element class
+    let elements: Vec<u32> = (0..alpha).filter(|e| (0..*e).all(|f| H::class(f) != H::class(*e))).collect();
     let tables = match race_tables_h::<H>(m, &elements, len.max(1)) {
         Ok(t) => t,
         Err(e) => {
@@ -233,7 +274,7 @@ fn check_config<H: Enc>(alpha: u32, len: usize, m: usize, l: usize, history_pool
     st.sequences += runs.len() as u64;
     let mut groups: BTreeMap<Vec<u32>, Vec<usize>> = BTreeMap::new();
     for (i, (s, _)) in runs.iter().enumerate() {
-        let mut key = s.clone();
+        let mut key: Vec<u32> = s.iter().map(|e| H::class(*e)).collect();
         key.sort();
         groups.entry(key).or_default().push(i);
     }
@@ -256,8 +297,9 @@ fn check_config<H: Enc>(alpha: u32, len: usize, m: usize, l: usize, history_pool
             }
         };
         // selection = the l pairs with the smallest race value (tables from the real code)
-        let occ0 = occurrences(s0);
-        let pairs0: BTreeSet<Pair> = s0.iter().zip(occ0.iter()).map(|(e, o)| (*e, *o)).collect();
+        let c0: Vec<u32> = s0.iter().map(|e| H::class(*e)).collect();
+        let occ0 = occurrences(&c0);
+        let pairs0: BTreeSet<Pair> = c0.iter().zip(occ0.iter()).map(|(e, o)| (*e, *o)).collect();
         for k in 0..m {
             let mut byval: Vec<(f64, Pair)> = pairs0.iter().map(|p| (tables[p][k], *p)).collect();
             byval.sort_by(|a, b| a.0.partial_cmp(&b.0).unwrap());
@@ -381,7 +423,8 @@ fn check_config<H: Enc>(alpha: u32, len: usize, m: usize, l: usize, history_pool
                     }
                     let et: Vec<H::Item> = tt.iter().map(|e| H::enc(*e)).collect();
                     let sig = h.hash_set(&et);
-                    decode(&h, sig, m, l, &tt)
+                    let ct: Vec<u32> = tt.iter().map(|e| H::class(*e)).collect();
+                    decode(&h, sig, m, l, &ct)
                 });
                 let bad = match r {
                     Ok(Ok(r)) => r.sig != base.sig || r.selected != base.selected,
@@ -427,6 +470,14 @@ pub fn run(ctx: &Ctx) -> i32 {
                         ctx.violation(&format!("{}:nohash64", x.key), &format!("[no-op hasher, item hashes 1, 2^32, 2^32+1, 2^63+1] {}", x.what), x.case);
                     }
                 }
+                // items that are unequal but hash alike (two tags per element), short sequences
+                if len <= 5 && m <= 4 {
+                    configs += 1;
+                    let f = check_config::<FnvTagged>(4, len, m, l, &pool, &mut st);
+                    for x in f {
+                        ctx.violation(&format!("{}:tagged", x.key), &format!("[items (class, tag) hashed by class only: symbols 2c and 2c+1 are unequal items with one hash] {}", x.what), x.case);
+                    }
+                }
                 // pass-through hasher with adjacent item hashes (pre-hashed data), shorter sequences
                 if len <= max_len - 1 {
                     configs += 1;
@@ -459,7 +510,7 @@ pub fn run(ctx: &Ctx) -> i32 {
         "exhaustive": true,
         "evaluations": st.calls,
         "distinct_nontrivial": st.distinct_sigs,
-        "rule": "every sequence of length l..6 (8 thorough) over a 4-letter (5 for short lengths, thorough) alphabet, l in {1,2,3}, m in {1,2,4,16} (+3,8,33), with the Fnv hasher, with the no-op hasher on items whose hashes are the adjacent integers 1..4, and with the no-op hasher on 64-bit items whose hashes {1, 2^32, 2^32+1, 2^63+1} agree pairwise on their low halves, high halves or xor-fold, grouped by multiset: the set of selected (element,occurrence) pairs per position (hook H4) must be identical across all permutations of a multiset and equal the l pairs with the smallest race value (race tables read from the real code on single-element runs); the signature value must be one injective function of the selected elements in sequence order; for l=1 the signature is permutation invariant; results do not depend on 1-2 earlier calls on the instance, including refused calls on sequences shorter than l whose panic is caught; distinct = distinct signatures",
+        "rule": "every sequence of length l..6 (8 thorough) over a 4-letter (5 for short lengths, thorough) alphabet, l in {1,2,3}, m in {1,2,4,16} (+3,8,33), with the Fnv hasher, with the no-op hasher on items whose hashes are the adjacent integers 1..4, and with the no-op hasher on 64-bit items whose hashes {1, 2^32, 2^32+1, 2^63+1} agree pairwise on their low halves, high halves or xor-fold, and (short sequences) with items that are unequal but hash alike (two tags per element; equal hashes are one element to the sketcher), grouped by multiset: the set of selected (element,occurrence) pairs per position (hook H4) must be identical across all permutations of a multiset and equal the l pairs with the smallest race value (race tables read from the real code on single-element runs); the signature value must be one injective function of the selected elements in sequence order; for l=1 the signature is permutation invariant; results do not depend on 1-2 earlier calls on the instance, including refused calls on sequences shorter than l whose panic is caught; distinct = distinct signatures",
         "configs": configs,
         "sequences": st.sequences,
         "multiset_groups": st.groups,
@@ -489,6 +540,11 @@ pub fn replay(_ctx: &Ctx, case: &Value) -> Result<(bool, String), String> {
             let elements: BTreeSet<u32> = s1.iter().cloned().collect();
             let els: Vec<u32> = elements.into_iter().collect();
             let nohash64 = case["hasher"].as_str().map(|h| h.starts_with("NoHash64")).unwrap_or(false);
+            if case["hasher"].as_str().map(|h| h.starts_with("FnvTagged")).unwrap_or(false) {
+                let (r1, r2) = (run_fresh_h::<FnvTagged>(m, l, &s1)?, run_fresh_h::<FnvTagged>(m, l, &s2)?);
+                let viol = r1.selected != r2.selected || (l == 1 && r1.sig != r2.sig);
+                return Ok((viol, format!("selected(seq1)={:?} selected(seq2)={:?}", r1.selected, r2.selected)));
+            }
             let (r1, r2, tables) = if nohash64 {
                 (run_fresh_h::<NoHash64>(m, l, &s1)?, run_fresh_h::<NoHash64>(m, l, &s2)?, race_tables_h::<NoHash64>(m, &els, s1.len())?)
             } else if nohash {
